@@ -41,6 +41,10 @@ func (e *Engine) verifyFunc(fc *FuncContract, proved map[string]bool) *Unit {
 	}
 	f.entrySt = st.clone()
 	pkg := e.typesPkgByPath(funcPkgPath(fn))
+	// type invariants of the objects reachable from pointer parameters (two levels)
+	for _, p := range fn.Params {
+		u.assumeReachableWF(f.env[p].T, p.Type(), st, 0)
+	}
 	// ghost variables
 	for _, g := range fc.Ghosts {
 		ce := &CEnv{u: u, pkg: pkg, lookup: f.paramLookup, heap: st.heap, old: st.heap, bound: map[string]CVal{}}
@@ -242,13 +246,33 @@ func (e *Engine) verifyLemma(lm *Lemma) *Unit {
 		return u
 	}
 	u.oblige("lemma", name+"/base", "base case "+lm.IndVar+" == "+lm.IndBase.String(), lm.Body.Line, tTrue, tb)
-	// step: forall h >= b. P(h) ==> P(h+1)   (h+1 must not overflow: h < maxint)
+	// step: forall h, fixed :: b <= h < max ==> ((forall gen :: P(h)) ==> (forall gen :: P(h+1)))
 	hName := "ind_h"
 	hv := &EIdent{hName}
-	hyp := inst(hv)
-	concl := inst(&EBinary{"+", hv, &EInt{bigOne}})
+	var fixed, gen []QVar
+	for _, o := range others {
+		isGen := false
+		for _, g := range lm.Generalize {
+			if g == o.Name {
+				isGen = true
+			}
+		}
+		if isGen {
+			gen = append(gen, o)
+		} else {
+			fixed = append(fixed, o)
+		}
+	}
+	wrapGen := func(b Expr) Expr {
+		if len(gen) == 0 {
+			return b
+		}
+		return &EQuant{Forall: true, Vars: gen, Body: b}
+	}
+	hyp := wrapGen(substExpr(q.Body, lm.IndVar, hv))
+	concl := wrapGen(substExpr(q.Body, lm.IndVar, &EBinary{"+", hv, &EInt{bigOne}}))
 	stepBody := &EBinary{"==>", &EBinary{"&&", &EBinary{">=", hv, lm.IndBase}, &EBinary{"<", hv, &EInt{bigMaxInt62}}}, &EBinary{"==>", hyp, concl}}
-	step := &EQuant{Forall: true, Vars: []QVar{{hName, iv.T}}, Body: stepBody}
+	step := &EQuant{Forall: true, Vars: append([]QVar{{hName, iv.T}}, fixed...), Body: stepBody}
 	ts, err := ce.evalBool(step)
 	if err != nil {
 		u.errorf("lemma %s step: %v", lm.Name, err)
@@ -306,3 +330,39 @@ func substExpr(e Expr, name string, by Expr) Expr {
 func contractKey(fc *FuncContract) string { return fc.Pkg + "::" + fc.Target }
 
 func unitErrors(u *Unit) string { return strings.Join(u.errs, "; ") }
+
+// assumeReachableWF states the well-formedness (type invariants) of the values
+// stored in the fields of the object ref points to, in the entry heap.
+func (u *Unit) assumeReachableWF(ref Term, t types.Type, st *State, depth int) {
+	pt, ok := t.Underlying().(*types.Pointer)
+	if !ok || depth > 1 || ref.S == "" {
+		return
+	}
+	stt, ok := pt.Elem().Underlying().(*types.Struct)
+	if !ok {
+		return
+	}
+	notNil := mkNot(mkEq(ref, intConst(0)))
+	for i := 0; i < stt.NumFields(); i++ {
+		ft := stt.Field(i).Type()
+		if _, nested := ft.Underlying().(*types.Struct); nested {
+			continue
+		}
+		region := u.fieldRegion(pt.Elem(), i)
+		fv := mk(u.te.sortOf(ft), "select", u.heapGet(st.heap, region), ref)
+		u.assume(notNil, u.wf(fv, ft, u.wm0))
+		switch ut := ft.Underlying().(type) {
+		case *types.Pointer:
+			u.assumeReachableWF(fv, ft, st, depth+1)
+		case *types.Slice:
+			// elements that are themselves slices / references
+			es := u.te.sortOf(ut.Elem())
+			if es == SSlice || es == SInt || es == SIface {
+				er, _ := u.elemRegion(ut.Elem())
+				row := mk(arraySort(bvSort(64), es), "select", u.heapGet(st.heap, er), sBase(fv))
+				el := Term{fmt.Sprintf("(select %s j)", row.S), es}
+				u.assume(notNil, Term{fmt.Sprintf("(forall ((j (_ BitVec 64))) (! %s :pattern (%s)))", u.wf(el, ut.Elem(), u.wm0).S, el.S), SBool})
+			}
+		}
+	}
+}
